@@ -4,6 +4,8 @@
     chunk <budget> <res0> <letters> <tail>            get_sdr_chunk_helper
     clear <budget> <res|-> <letters> <tail>           clear_repository_helper
     clearloop <ctrl> <budget> <res0> <letters> <tail> _clear_repository
+    chunkr <budget> <res0> <rplan> <letters> <tail>   get_sdr_chunk_helper, reserve_fn outcomes planned (f<code> = refused)
+    clearr <budget> <res|-> <rplan> <letters> <tail>  clear_repository_helper, the same
     send <asShipped:1|0> <budget> <letters> <tail>    Ipmi.send_message
     consts                                            constants read from the source
     data <store r|d> <stale 1|0> <id> <res|-> <res0> <recs> <letters> <tail>
@@ -15,6 +17,16 @@
          stale = `Variant.staleRes` (1 = the renewed id is dropped, as probed on the real code); the other
          components of the variant are the ones read from the source
 
+    selentry <floor|-> <rid> <res> <res0> <rec hex> <next> <rplan> <letters> <tail>
+                                                      Sel.get_sel_entry(rid, res) against `SelXfer.scriptSend`
+    selgac <floor|-> <b|f><n> <rid> <res0> <rec hex> <next> <rplan> <letters> <tail>
+                                                      Sel.get_and_clear_sel_entry(rid[, retry]); b<n> = the tree has a
+                                                      retry budget, n rounds; f<n> = `while True`, n rounds of fuel
+         floor = `Variant.floor` as probed (- = none); rplan = outcomes of the Reserve SEL requests (then granted);
+         letters / tail = outcomes of Get / Delete SEL Entry; the device holds the one record <rec hex>
+         outcome ::= ok=<hex>:<next> | ok=<hex> | <error tag>
+         E ::= r<granted> | f<code> (Reserve refused) | g<res>:<rid>:<off>:<len>:<cc> | d<res>:<rid>:<cc> | ?
+
   letters ::= - | L(,L)*      L ::= C | P | R | T | U | B | O<code>
   answer  ::= <outcome tag> <trace>      trace ::= - | E(,E)*
   E ::= r<granted> | c<ctrl>:<res>:<L> | k<res>:<L> | x<L>
@@ -25,7 +37,9 @@
 import PyIpmi.Base.Proto
 import PyIpmi.Model.Retry
 import PyIpmi.Model.SdrXfer
+import PyIpmi.Model.SelScript
 import PyIpmi.Gen.Loops11
+import PyIpmi.Gen.Loops10
 open PyIpmi PyIpmi.Proto PyIpmi.Model.Retry
 
 def K13 : Consts := PyIpmi.Gen.Loops11.consts
@@ -57,6 +71,7 @@ def showEv : Ev → String
   | .clear c r l => s!"c{c}:{r}:{showLetter l}"
   | .chunk r l => s!"k{r}:{showLetter l}"
   | .xfer l => s!"x{showLetter l}"
+  | .reserveFailed c => s!"f{c}"
 
 def showTrace (t : List Ev) : String :=
   if t.isEmpty then "-" else ",".intercalate (t.map showEv)
@@ -121,6 +136,56 @@ def handleSdr13 (toks : List String) : Option String :=
       (fun (l : List (List Nat)) => if l.isEmpty then "-" else ";".intercalate (l.map toHex)))
   | _ => none
 
+/-! the SEL loops on the scripted SEL device -/
+def u16at (l : List Nat) (i : Nat) : Nat := l.getD i 0 + 256 * l.getD (i + 1) 0
+
+def showSelXchg (x : PyIpmi.FruXfer.Xchg) : String :=
+  let cc := x.rsp.getD 0 0
+  let p := x.req.payload
+  if x.req.cmd == 0x42 then (if cc == 0 then s!"r{u16at x.rsp 1}" else s!"f{cc}")
+  else if x.req.cmd == 0x43 then s!"g{u16at p 0}:{u16at p 2}:{p.getD 4 0}:{p.getD 5 0}:{cc}"
+  else if x.req.cmd == 0x46 then s!"d{u16at p 0}:{u16at p 2}:{cc}"
+  else "?"
+
+def answerSel {α : Type} (r : PyIpmi.FruXfer.Res PyIpmi.SelXfer.ScriptSel α) (f : α → String) : String :=
+  let o := match r.out with
+    | .ok a => "ok=" ++ f a
+    | e => e.tag
+  let t := if r.w.trace.isEmpty then "-" else ",".intercalate (r.w.trace.map showSelXchg)
+  s!"{o} {t}"
+
+def parseFloor (s : String) : Option (Option Int) :=
+  if s == "-" then some none else s.toInt?.map some
+
+open PyIpmi.SelXfer in
+def handleSel13 (toks : List String) : Option String :=
+  match toks with
+  | ["selentry", fl, rid, res, r0, rec, nx, rp, ls, t] => do
+    let fl ← parseFloor fl
+    let rid ← rid.toNat?
+    let res ← res.toNat?
+    let r0 ← r0.toNat?
+    let rec ← ofHex rec
+    let nx ← nx.toNat?
+    let rp ← parseLetters rp
+    let ls ← parseLetters ls
+    let t ← parseLetter t
+    pure (answerSel (runEntry PyIpmi.Gen.Loops10.selCfg ⟨fl, none⟩ ⟨⟨ls, t⟩, rp, r0, rec, nx⟩ rid res)
+      (fun (p : List Nat × Nat) => s!"{toHex p.1}:{p.2}"))
+  | ["selgac", fl, bn, rid, r0, rec, nx, rp, ls, t] => do
+    let fl ← parseFloor fl
+    let n ← (bn.drop 1).toString.toNat?
+    let budget : Option Nat := if bn.startsWith "b" then some n else none
+    let rid ← rid.toNat?
+    let r0 ← r0.toNat?
+    let rec ← ofHex rec
+    let nx ← nx.toNat?
+    let rp ← parseLetters rp
+    let ls ← parseLetters ls
+    let t ← parseLetter t
+    pure (answerSel (runGac PyIpmi.Gen.Loops10.selCfg ⟨fl, budget⟩ n ⟨⟨ls, t⟩, rp, r0, rec, nx⟩ rid) toHex)
+  | _ => none
+
 def handleC13 (line : String) : String :=
   match tokens line with
   | ["ping"] => "pong"
@@ -137,6 +202,18 @@ def handleC13 (line : String) : String :=
     match b.toNat?, (if r == "-" then some none else r.toNat?.map some), parseLetters ls, parseLetter t with
     | some b, some rv, some ls, some t => answer (runClear K13 b rv ⟨ls, t⟩)
     | _, _, _, _ => "bad-op"
+  | ["chunkr", b, r, rp, ls, t] =>
+    match b.toNat?, r.toNat?, parseLetters rp, parseLetters ls, parseLetter t with
+    | some b, some r, some rp, some ls, some t =>
+      let p := runChunkR K13 b r ⟨ls, t⟩ rp
+      s!"{p.2.tag} {showTrace p.1.env.trace}"
+    | _, _, _, _, _ => "bad-op"
+  | ["clearr", b, r, rp, ls, t] =>
+    match b.toNat?, (if r == "-" then some none else r.toNat?.map some), parseLetters rp, parseLetters ls, parseLetter t with
+    | some b, some rv, some rp, some ls, some t =>
+      let p := runClearR K13 b rv ⟨ls, t⟩ rp
+      s!"{p.2.tag} {showTrace p.1.env.trace}"
+    | _, _, _, _, _ => "bad-op"
   | ["clearloop", c, b, r, ls, t] =>
     match c.toNat?, b.toNat?, r.toNat?, parseLetters ls, parseLetter t with
     | some c, some b, some r, some ls, some t => answer (runClearLoop K13 c b r ⟨ls, t⟩)
@@ -145,7 +222,7 @@ def handleC13 (line : String) : String :=
     match v.toNat?, b.toNat?, parseLetters ls, parseLetter t with
     | some v, some b, some ls, some t => answer (runSend K13 ⟨v != 0⟩ b ⟨ls, t⟩)
     | _, _, _, _ => "bad-op"
-  | toks => (handleSdr13 toks).getD "bad-op"
+  | toks => ((handleSdr13 toks).orElse fun _ => handleSel13 toks).getD "bad-op"
 
 def main : IO Unit := do
   loop (← IO.getStdin) (← IO.getStdout) handleC13
